@@ -519,6 +519,15 @@ let op_cpkt opidx impl_all toks =
             (Printf.sprintf "client %d: queued for server(s) [%s], the configuration routes it to [%s]" c
                (String.concat "," (List.map string_of_int i_enq)) (String.concat "," (List.map string_of_int m_enq)))
       end;
+      (* C08: a local answer comes from the FIRST matching realm block: its Reply-Message is that block's *)
+      if not !in_fault && not !diverged then begin
+        let rmsg p = List.filter_map (fun (t, _, v) -> if t = 18 then Some v else None) (attr_list p) in
+        (match List.filter_map (function OReply (_, p) -> Some p | _ -> None) o, impl_events impl_all "reply" with
+         | [ mp ], [ [ _; ip ] ] when wf_packet (bytes_of_hex ip) && rmsg mp <> rmsg (bytes_of_hex ip) ->
+             spec opidx "C08_reply_of_first_matching_realm" false
+               (Printf.sprintf "client %d: the local reply carries the Reply-Message of another realm block than the first matching one" c)
+         | _ -> ())
+      end;
       (* C08, as the property states it: '*' matches EVERY User-Name, the zero-length one included (quantifier: lengths
          0..253).  Evaluated only in the cases that ask for it (a realm '*' with a usable server and nothing else). *)
       if !strict_empty_username && not !in_fault then begin
